@@ -81,6 +81,23 @@ namespace xv
         template <class T, class X>
         static X f(X a, long) { a++; return a; }
     };
+    // the same object on both sides of an operator / in every argument slot
+#define XV_SELF(NAME, STMT)                          \
+    struct NAME                                      \
+    {                                                \
+        template <class T, class X>                  \
+        static X f(X a, long) { STMT; return a; }    \
+    };
+    XV_SELF(op_selfadd, a += a)
+    XV_SELF(op_selfsub, a -= a)
+    XV_SELF(op_selfmul, a *= a)
+    XV_SELF(op_selfmul_op, a = a * a)
+    XV_SELF(op_selfand, a &= a)
+    XV_SELF(op_selfor, a |= a)
+    XV_SELF(op_selfxor, a ^= a)
+    XV_SELF(op_selffma, a = xs::fma(a, a, a))
+    XV_SELF(op_selfmin, a = xs::min(a, a))
+    XV_SELF(op_selfsadd, a = xs::avg(a, a))
     struct op_preinc
     {
         template <class T, class X>
@@ -202,6 +219,14 @@ namespace xv
         reg_u<op_incr>("C01", "incr", it);
         reg_u<op_decr>("C01", "decr", it);
         reg_u<op_preinc>("C01", "incr.op", it);
+        reg_u<op_selfadd>("C01", "selfadd", it);
+        reg_u<op_selfmul>("C01", "selfmul", it);
+        reg_u<op_selfmul_op>("C01", "selfmul.op", it);
+        reg_u<op_selffma>("C01", "selffma", it);
+        reg_u<op_selfmin>("C01", "selfid.min", it);
+        reg_u<op_selfsadd>("C01", "selfid.avg", it);
+        reg_u<op_selfand>("C07", "selfid.and", it);
+        reg_u<op_selfor>("C07", "selfid.or", it);
         reg_u<op_postdec>("C01", "decr.op", it);
         reg_um<op_incr_if>("C01", "incr_if", it);
         reg_um<op_decr_if>("C01", "decr_if", it);
